@@ -346,6 +346,7 @@ func (f *FnVC) block(b *ssa.BasicBlock) {
 		for _, ia := range l2.spec.IterApply {
 			envA := f.loopEnv(l2, f.st, subst)
 			envA.old = l2.headState
+			envA.oldLazy = f.loopEnv(l2, l2.headState, nil).lazy // old(x): x at the beginning of this iteration
 			f.applyLemma(envA, HintClause{Where: fmt.Sprintf("loop %d iteration", l2.ord), C: ia, Apply: true}, s.Instrs[0].Pos())
 		}
 		for _, inv := range l2.spec.Invariants {
@@ -358,6 +359,7 @@ func (f *FnVC) block(b *ssa.BasicBlock) {
 		for _, ie := range l2.spec.IterEns {
 			envI := f.loopEnv(l2, f.st, subst)
 			envI.old = l2.headState
+			envI.oldLazy = f.loopEnv(l2, l2.headState, nil).lazy // old(x): x at the beginning of this iteration
 			f.oblige("iteration", fmt.Sprintf("loop %d iteration ensures %s", l2.ord, ie.Text), f.trBool(envI, ie.E), s.Instrs[0].Pos())
 		}
 		f.reach[b.Index] = saved
@@ -1641,17 +1643,33 @@ func (f *FnVC) pointEnv(at ssa.Instruction) *Env {
 	addrs := map[string]ssa.Value{}
 	scan := func(b *ssa.BasicBlock, upto ssa.Instruction) {
 		started := upto == nil
+		// DebugRefs that follow `upto` without another instruction in between describe what it completed
+		// (the assignment target of a composite literal, the variable a value was bound to)
+		trailing := map[ssa.Instruction]bool{}
+		if upto != nil {
+			seen := false
+			for _, in := range b.Instrs {
+				if in == upto {
+					seen = true
+					continue
+				}
+				if seen {
+					if _, ok := in.(*ssa.DebugRef); ok {
+						trailing[in] = true
+						continue
+					}
+					break
+				}
+			}
+		}
 		for i := len(b.Instrs) - 1; i >= 0; i-- {
 			in := b.Instrs[i]
 			if !started {
 				if in == upto {
 					started = true
 				} else {
-					// DebugRefs directly following `upto` describe its result (e.g. the assignment target)
-					if uv, isVal := upto.(ssa.Value); isVal {
-						if d, ok := in.(*ssa.DebugRef); ok && d.X == uv {
-							goto use
-						}
+					if trailing[in] {
+						goto use
 					}
 					continue
 				}
